@@ -30,6 +30,10 @@ type C04Payload struct {
 	Fd1Faults []simrt.WriteFault `json:"fd1_faults,omitempty"`
 	Fd2Faults []simrt.WriteFault `json:"fd2_faults,omitempty"`
 	EmptyComp bool               `json:"empty_completion_env,omitempty"` // GO_FLAGS_COMPLETION="" must behave like unset
+	// Twice (plan mode, fault = a failing Execute / CommandHandler): the command
+	// fails every time with the very same error value (a program's sentinel), and
+	// the line is handed to the same parser twice; the second call is judged.
+	Twice bool `json:"twice,omitempty"`
 	// StaleComp: GO_FLAGS_COMPLETION is set while the parser is constructed and
 	// unset before ParseArgs runs: an ordinary parse, outside completion mode.
 	StaleComp bool `json:"stale_completion_env,omitempty"`
@@ -143,6 +147,7 @@ func (propC04) Gen(r *Rng, idx int, tier string) *Scenario {
 	mr := r.Fork("mode")
 	p.EmptyComp = mr.Chance(1, 8)
 	p.StaleComp = !p.EmptyComp && r.Fork("stalecomp").Chance(1, 10)
+	p.Twice = r.Fork("twice").Chance(1, 4)
 	if mr.Bool() {
 		p.Mode = "plan"
 		sc.Family = "plan+fault"
@@ -276,6 +281,12 @@ func c04Run(sc *Scenario, argv []string, callee []CalleeFault, env map[string]st
 	if sc.C04 != nil && sc.C04.Mode == "adversarial" && sc.C04.HasFirst {
 		s2.Ops = []Op{{Kind: "parse", Argv: sc.C04.Argv0}, op}
 	}
+	if sc.C04 != nil && sc.C04.Twice && len(s2.Ops) == 1 && len(callee) == 1 && (callee[0].Kind == "execute" || callee[0].Kind == "handler") {
+		every := callee[0]
+		every.Nth = -1
+		s2.Callee = []CalleeFault{every}
+		s2.Ops = []Op{op, op}
+	}
 	return Execute(&s2, nil)
 }
 
@@ -406,6 +417,19 @@ func (propC04) Judge(sc *Scenario) *Verdict {
 	v.addStats(o.Stats)
 	if o.HarnessPanic != "" {
 		return harnessTrouble(v, o.HarnessPanic)
+	}
+	if p.Twice && len(o.Ops) == 2 && len(callee) == 1 && lastOp(o).Injected != callee[0].ID {
+		// the second call did not get as far as the command (a reused parser
+		// remembers): judge the line on a fresh parser, as without Twice
+		p2, sc2 := *p, *sc
+		p2.Twice = false
+		sc2.C04 = &p2
+		p, sc = &p2, &sc2
+		o = c04Run(sc, argv, callee, env, false)
+		v.Evals++
+		if o.HarnessPanic != "" {
+			return harnessTrouble(v, o.HarnessPanic)
+		}
 	}
 	fkind := "none"
 	if p.Fault != nil {
@@ -571,6 +595,9 @@ func (propC04) Reductions(sc *Scenario) []func(*Scenario) bool {
 	}
 	if len(p.Fd1Faults)+len(p.Fd2Faults) > 0 {
 		out = append(out, func(s *Scenario) bool { s.C04.Fd1Faults, s.C04.Fd2Faults = nil, nil; return true })
+	}
+	if p.Twice {
+		out = append(out, func(s *Scenario) bool { s.C04.Twice = false; return true })
 	}
 	if p.StaleComp {
 		out = append(out, func(s *Scenario) bool { s.C04.StaleComp = false; return true })
